@@ -186,6 +186,7 @@ pub fn prop_type(schema: &SchemaModel, ty: &str, prop: &str) -> Option<TyRef> {
 
 /// (property, operator) menu for variable filters.
 fn filter_menu(cfg: &GenCfg) -> Vec<(&'static str, &'static str)> {
+    // every operator at least once (each has its own arm in apply_filter)
     let mut m = vec![
         ("n", "="),
         ("n", "<"),
@@ -197,33 +198,49 @@ fn filter_menu(cfg: &GenCfg) -> Vec<(&'static str, &'static str)> {
         ("s", "regex"),
         ("l", "contains"),
         ("s", "!="),
+        ("n", "<="),
+        ("n", ">"),
+        ("n", "not_one_of"),
+        ("l", "not_contains"),
+        ("s", "has_prefix"),
+        ("s", "not_has_prefix"),
+        ("s", "has_suffix"),
+        ("s", "not_has_suffix"),
+        ("s", "not_has_substring"),
+        ("s", "not_regex"),
     ];
     if cfg.wide_filters {
-        m.extend([
-            ("n", "!="),
-            ("n", "<="),
-            ("n", ">"),
-            ("n", "not_one_of"),
-            ("id", "="),
-            ("id", ">"),
-            ("s", "="),
-            ("s", "one_of"),
-            ("s", "<"),
-            ("s", "is_null"),
-            ("l", "not_contains"),
-            ("s", "not_has_prefix"),
-            ("s", "has_suffix"),
-            ("s", "not_regex"),
-        ]);
+        m.extend([("n", "!="), ("id", "="), ("id", ">"), ("s", "="), ("s", "one_of"), ("s", "<"), ("s", "is_null")]);
     }
     m
 }
 
 /// (tagged property, filtered property, operator) menu for tag filters.
 fn tag_menu(cfg: &GenCfg) -> Vec<(&'static str, &'static str, &'static str)> {
-    let mut m = vec![("n", "n", "="), ("n", "n", "<"), ("n", "n", ">="), ("n", "n", "!="), ("id", "n", ">"), ("l", "n", "one_of"), ("n", "l", "contains"), ("s", "s", "="), ("s", "s", "has_substring")];
+    // every binary operator at least once with a tag operand (each has its own arm in apply_filter)
+    let mut m = vec![
+        ("n", "n", "="),
+        ("n", "n", "<"),
+        ("n", "n", ">="),
+        ("n", "n", "!="),
+        ("id", "n", ">"),
+        ("l", "n", "one_of"),
+        ("n", "l", "contains"),
+        ("s", "s", "="),
+        ("s", "s", "has_substring"),
+        ("n", "n", "<="),
+        ("l", "n", "not_one_of"),
+        ("n", "l", "not_contains"),
+        ("s", "s", "regex"),
+        ("s", "s", "not_regex"),
+        ("s", "s", "has_prefix"),
+        ("s", "s", "not_has_prefix"),
+        ("s", "s", "has_suffix"),
+        ("s", "s", "not_has_suffix"),
+        ("s", "s", "not_has_substring"),
+    ];
     if cfg.wide_filters {
-        m.extend([("n", "n", "<="), ("n", "n", ">"), ("id", "id", "<"), ("l", "n", "not_one_of"), ("s", "s", "!="), ("s", "s", ">"), ("n", "id", "=")]);
+        m.extend([("n", "n", ">"), ("id", "id", "<"), ("s", "s", "!="), ("s", "s", ">"), ("n", "id", "=")]);
     }
     m
 }
